@@ -154,3 +154,21 @@ Proof. exact V.Proofs.C08_routed_proofs.routed_dimension_items. Qed.
 Theorem C08_routed_count_never_null : forall ac ref,
   V.Model.Routed.metric_item ac (ref, Some "count"%string) = [("COALESCE(SUM(" ++ (V.Model.TryRoute.strip_model ref ++ "_raw") ++ "), 0) as " ++ V.Model.TryRoute.strip_model ref)%string].
 Proof. exact V.Proofs.C08_routed_proofs.routed_count_coalesced. Qed.
+
+Require V.Model.RefRewrite V.Gen.RefRewrite_gen V.Proofs.RefRewrite_proofs.
+(* THE FILTER REWRITE OF A ROUTED QUERY, regenerated: Gen/RefRewrite_gen.v holds what SQLGenerator._rewrite_filter_for_preaggregation returns on 10 scripted filter texts x 4
+   rollups (own, `_cte`-qualified, unqualified and foreign references; a rollup with a time column, without a granularity, without a time dimension, over another dimension;
+   texts that do not parse take the method's textual fallback), extracted from generator.py on every run (translator/gen_refrewrite.py, fail closed, validated against
+   CPython).  Model/RefRewrite.to_rollup is the parsed branch at the level of references and equals the table on its 28 parsed rows; for EVERY reference: a reference qualified
+   by the model loses its qualifier, a reference of another table is left exactly as it is, an own reference to the rollup's time dimension reads <dimension>_<granularity>. *)
+Theorem C08_filter_rewrite_table :
+  forallb (V.Model.RefRewrite.preagg_ref_row_ok V.Gen.RefRewrite_gen.rr_texts) V.Gen.RefRewrite_gen.preagg_ref_rows = true /\
+  V.Model.RefRewrite.parsed_rows V.Gen.RefRewrite_gen.rr_texts (fun r => fst (fst (fst r))) V.Gen.RefRewrite_gen.preagg_ref_rows = 28%nat.
+Proof. exact V.Proofs.RefRewrite_proofs.preagg_ref_table_ok. Qed.
+Theorem C08_own_reference_unqualified : forall model td g r, V.Model.RefRewrite.own model r = true -> fst (V.Model.RefRewrite.to_rollup model td g r) = ""%string.
+Proof. exact V.Proofs.RefRewrite_proofs.own_reference_unqualified. Qed.
+Theorem C08_other_table_untouched : forall model td g r, V.Model.RefRewrite.own model r = false -> fst r <> ""%string -> V.Model.RefRewrite.to_rollup model td g r = r.
+Proof. exact V.Proofs.RefRewrite_proofs.other_table_untouched. Qed.
+Theorem C08_time_dimension_reads_time_column : forall model t g c, t <> ""%string -> g <> ""%string -> V.Model.RefRewrite.own model (c, t) = true \/ c = ""%string ->
+  V.Model.RefRewrite.to_rollup model (Some t) (Some g) (c, t) = (""%string, (t ++ "_" ++ g)%string).
+Proof. exact V.Proofs.RefRewrite_proofs.time_dimension_reads_time_column. Qed.
